@@ -288,7 +288,7 @@ def _alarm(signum, frame):
     raise _Hang()
 
 
-def real_run(cfg, gdoc, idoc=None, extra=None):
+def real_run(cfg, gdoc, idoc=None, extra=None, omit=()):
     """Shaper over files: graph_file_input (+ instances_file_input); ('ok', text) | ('err', class)"""
     from shexer.shaper import Shaper
     warnings.filterwarnings("ignore")
@@ -304,6 +304,8 @@ def real_run(cfg, gdoc, idoc=None, extra=None):
     kw = pipe.shaper_kwargs(cfg)
     if extra:
         kw.update(extra)
+    for name in omit:      # leave the option at the Shaper's own default
+        kw.pop(name, None)
     k, m = cfg["thr"]
     old = signal.signal(signal.SIGALRM, _alarm)
     signal.setitimer(signal.ITIMER_REAL, 10.0)
@@ -408,7 +410,7 @@ def eval_case(case):
                 res["oracle"].append({"what": "cap run differs from uncapped run on the restricted document (both passes)",
                                       "with_option": a, "on_restricted": c})
         if not deleted:
-            c = real_run(nocap, doc)
+            c = real_run(nocap, doc, omit=("instances_cap",))
             res["runs"] += 1
             if a != c:
                 res["oracle"].append({"what": "a cap not smaller than any class changed the output",
